@@ -1,4 +1,4 @@
-package unitprops
+package c49
 
 import (
 	"strings"
